@@ -376,6 +376,10 @@ class C06(Check):
         specs.append(("designed/valve-user-open", K.valve_user_open_spec()))
         specs.append(("designed/pump-reverse", K.pump_reverse_spec()))
         specs.append(("designed/head-tie", K.head_tie_spec()))
+        # presolve controls of every priority firing in the step where a tank limit is crossed: the limit's backtrack must win
+        for prio in ([0, 1, 3, 6] if ctx.quick else range(7)):
+            specs.append(("designed/presolve-priority-%d-min" % prio, K.priority_presolve_spec(prio, "min")))
+            specs.append(("designed/presolve-priority-%d-max" % prio, K.priority_presolve_spec(prio, "max")))
         n = 14 if ctx.quick else 220
         for i in range(n):
             force = {}
